@@ -64,7 +64,15 @@ int deflate(z_streamp s, int flush)
 	s->next_out += 0;
 	return end ? Z_STREAM_END : (np ? Z_BUF_ERROR : Z_OK);
 }
-int inflate(z_streamp s, int flush) { return deflate(s, flush); }
+static int lib_error;
+int inflate(z_streamp s, int flush)
+{
+#ifdef CORRUPT
+	/* damaged input: zlib reports Z_DATA_ERROR (or Z_NEED_DICT / Z_MEM_ERROR) and makes no progress, on this and every later call */
+	if (lib_error || ND_BOOL()) { int k = ND_I32(); VP_ASSUME(k >= 0 && k <= 2); lib_error = 1; lib_calls++; return k == 0 ? Z_DATA_ERROR : k == 1 ? Z_NEED_DICT : Z_MEM_ERROR; }
+#endif
+	return deflate(s, flush);
+}
 int deflateReset(z_streamp s) { (void)s; return Z_OK; }
 int inflateReset(z_streamp s) { (void)s; return Z_OK; }
 int deflateEnd(z_streamp s) { (void)s; return Z_OK; }
@@ -73,7 +81,11 @@ int deflateInit2_(z_streamp s, int l, int m, int w, int ml, int st, const char *
 int inflateInit2_(z_streamp s, int w, const char *v, int sz) { (void)s; (void)w; (void)v; (void)sz; return Z_OK; }
 #include "lib/xfrm/src/gzip.c"
 static xfrm_stream_gzip_t OBJ;
+#ifdef CORRUPT
+#define SETUP() do { OBJ.compress = false; } while (0)
+#else
 #define SETUP() do { OBJ.compress = true; } while (0)
+#endif
 #elif KIND == 2
 #include <lzma.h>
 lzma_ret lzma_code(lzma_stream *s, lzma_action a)
@@ -151,11 +163,21 @@ void harness(void)
 
 	ret = process_data((xfrm_stream_t *)&OBJ, in, in_size, out, out_size, &in_read, &out_written, mode);
 
+#ifdef CORRUPT
+	/* C07/C15: a library error on damaged input ends the call with an error
+	   (the unwinding assertions of this obligation prove that the loop ends) */
+	VP_ASSERT((ret == XFRM_STREAM_ERROR) == (lib_error != 0), "C07: a decoder error on damaged input is reported as an error, never retried forever or swallowed");
+	if (lib_error) { VP_REACH("library_error"); return; }
+#endif
 	VP_ASSERT(ret != XFRM_STREAM_ERROR, "a well-behaved library never makes the wrapper fail");
 	VP_ASSERT(in_read - in0 == lib_consumed && in_read - in0 <= in_size, "(1) *in_read advances by what the library consumed, within in_size");
 	VP_ASSERT(out_written - out0 == lib_produced && out_written - out0 <= out_size, "(1) *out_written advances by what the library produced, within out_size");
 	VP_ASSERT((ret == XFRM_STREAM_END) == (lib_calls > 0 && lib_last_end), "(2) END is reported iff the library reported end of stream");
+#ifndef CORRUPT
 	if (mode == XFRM_STREAM_FLUSH_FULL && out_size > 0)
+#else
+	if (0)
+#endif
 		VP_ASSERT(lib_calls >= 1, "C15 (3): asked to finish with output space available, the codec is driven even when no input is left (otherwise flush never terminates)");
 	if (ret == XFRM_STREAM_END)
 		VP_REACH("end");
